@@ -399,7 +399,7 @@ func Run(r *fw.Run) {
 	} else {
 		r.SetBudget(40 * time.Minute)
 	}
-	if !r.IsWorker() || strings.HasPrefix(os.Getenv("VERIF_WORKER"), "unordered") || strings.HasPrefix(os.Getenv("VERIF_WORKER"), "layout") {
+	if !r.IsWorker() {
 		runUnordered(r)
 		runLayouts(r)
 	}
